@@ -24,12 +24,12 @@ also inside the modelled functions: kitty keyboard push/pop ⇒ `caps.kittyKeybo
 `caps.explicitWidth`; `4:n`, 58, 59 ⇒ `caps.styledUnderlines`; the OSC 4/10/11 queries ⇒ the
 `CanReport*` accessors; the `CSI 18 t` size query ⇒ both size reports advertised; OSC 176 reset ⇒
 `caps.osc176`; the query-only sequences (XTVERSION, XTGETTCAP, DECRQM, kitty queries, XTSMGRAPHICS,
-tertiary DA, DECRQSS) occur nowhere else. -/
+tertiary DA, DECRQSS) occur nowhere else.  The gated writers are exactly the listed ones (as a set). -/
 theorem gated_sequences_guarded :
     (writers.filter fun w => w.fn != "Vaxis.sendQueries" && !requestWriters.contains (w.fn, w.what) &&
         (gatedTable.lookup w.what).isSome).all
       (fun w => classify w == .gated) = true ∧
-    ((writers.filter fun w => classify w == .gated).map fun w => (w.fn, w.what)) = [
+    sameMembers ((writers.filter fun w => classify w == .gated).map fun w => (w.fn, w.what)) [
       ("Vaxis.render", "ulColorReset"), ("Vaxis.render", "ulIndexSet"), ("Vaxis.render", "ulRGBSet"),
       ("Vaxis.render", "ulStyleSet"), ("Vaxis.render", "explicitWidth"),
       ("Vaxis.QueryColor", "osc4"), ("Vaxis.QueryForeground", "osc10"), ("Vaxis.QueryBackground", "osc11"),
@@ -41,20 +41,20 @@ theorem gated_sequences_guarded :
       ("Vaxis.disableModes", "setAppID"), ("Vaxis.disableModes", "decrst inBandResize"),
       ("Vaxis.reportWinsize", "textAreaSize"), ("Vaxis.reportWinsize", "textAreaSize"),
       ("writer.Write", "decset synchronizedUpdate"), ("writer.WriteString", "decset synchronizedUpdate"),
-      ("writer.Flush", "decrst synchronizedUpdate")] := by decide +kernel
+      ("writer.Flush", "decrst synchronizedUpdate")] = true := by decide +kernel
 
 /-- **The writes made on the application's request** are exactly these — clipboard (OSC 52),
 notification (OSC 9 / OSC 777), title (OSC 2), application id (OSC 176), bell, the cursor-position
 query, and an image object's own protocol (kitty graphics APC / sixel DCS) — each in the API
-function named after it and nowhere else. -/
+function named after it and nowhere else (as a set: source order is not part of the statement). -/
 theorem request_writers_exact :
-    ((writers.filter fun w => classify w == .request).map fun w => (w.fn, w.what)) = [
+    sameMembers ((writers.filter fun w => classify w == .request).map fun w => (w.fn, w.what)) [
       ("KittyImage.Draw", "expr:k.buf.Bytes()"), ("KittyImage.Draw", "lit:\x1b_Ga=p,i=%d,p=%d,C=1\x1b\\"),
       ("KittyImage.Draw", "lit:\x1b_Ga=d,d=i,i=%d,p=%d\x1b\\"), ("KittyImage.Destroy", "lit:\x1b_Ga=d,d=I,i=%d\x1b\\"),
       ("Sixel.Draw", "expr:s.buf.Bytes()"),
       ("Vaxis.CursorPosition", "dsrcpr"), ("Vaxis.ClipboardPush", "osc52put"), ("Vaxis.ClipboardPop", "osc52pop"),
       ("Vaxis.Notify", "osc9notify"), ("Vaxis.Notify", "osc777notify"), ("Vaxis.SetTitle", "setTitle"),
-      ("Vaxis.SetAppID", "setAppID"), ("Vaxis.Bell", "expr:[]byte{0x07}")] := by decide +kernel
+      ("Vaxis.SetAppID", "setAppID"), ("Vaxis.Bell", "expr:[]byte{0x07}")] = true := by decide +kernel
 
 /-- **Image objects are handed out by the detected protocol**: `NewImage` returns a kitty image
 only when `graphicsProtocol = kitty` and a sixel image only when it is `sixelGraphics`; and inside
